@@ -355,6 +355,8 @@ def run_script(bus, script, groups, canaries, blast_spec=None, noread=(), strict
                     exp_events.append(("noc", (bytes.fromhex(p[2]).decode("latin-1"), c, int(p[3]))))
                 elif p[0] == "noreply" and strict:
                     exp_noreply.append((c, int(p[2])))
+                elif p[0] == "limit" and strict:
+                    exp_events.append(("limit", int(p[2])))
                 elif p[0] == "gone":
                     gone_expected.add(c)
                     stats["gone"] += 1
@@ -384,7 +386,9 @@ def run_script(bus, script, groups, canaries, blast_spec=None, noread=(), strict
         for m in mon:
             snd = m.fields.get(F_SENDER)
             if snd == DRIVER:
-                if strict and m.mtype == ERROR and m.fields.get(4) == "org.freedesktop.DBus.Error.NoReply":
+                if strict and m.mtype == ERROR and m.fields.get(4) == "org.freedesktop.DBus.Error.LimitsExceeded":
+                    got_events.append(("limit", m.fields.get(F_REPLY_SERIAL)))
+                elif strict and m.mtype == ERROR and m.fields.get(4) == "org.freedesktop.DBus.Error.NoReply":
                     got_noreply.append((m.fields.get(F_DESTINATION), m.fields.get(F_REPLY_SERIAL)))
                 elif strict and m.mtype == SIGNAL and m.fields.get(F_MEMBER) == "NameOwnerChanged" and len(m.body) == 3 and not m.body[0].startswith(":"):
                     got_events.append(("noc", tuple(m.body)))
